@@ -94,8 +94,16 @@ def sweep(ctx, n_hist, n_ops):
                     rot = R.identity()
                 a = rng.random()
                 anchor = None if a < 0.3 else (0 if a < 0.4 else (nps.uniform(-2, 2, 3) if a < 0.7 else nps.uniform(-2, 2, (rng.choice([1, 2, 4]), 3))))
+                anchor_arg = anchor
+                if rng.random() < 0.15:
+                    # the anchor is a LIVE view of the object's own position path (`obj.rotate(rot, anchor=obj.position[k])`,
+                    # `anchor=obj.position`): it names the same points as a copy of it
+                    live = obj.position
+                    anchor_arg = live if (live.ndim == 1 or rng.random() < 0.5) else live[rng.randrange(len(live))]
+                    anchor = np.array(anchor_arg, dtype=float)
+                    branch["live-anchor"] = branch.get("live-anchor", 0) + 1
                 hist.append(("rot", rot.as_quat().tolist(), None if anchor is None else np.asarray(anchor).tolist(), start))
-                obj.rotate(None if give_none else rot, anchor=anchor, start="auto" if start is None else start)
+                obj.rotate(None if give_none else rot, anchor=anchor_arg, start="auto" if start is None else start)
                 P, Q = ref_rotate(P, Q, rot, anchor, start)
                 branch["rot-none" if give_none else "rot"] = branch.get("rot-none" if give_none else "rot", 0) + 1
             elif kind == "setpos":
